@@ -43,6 +43,8 @@ BASES = [
 
 
 def fetcher(url):
+    if url.endswith('broken.css'):
+        return (None, 'broken { top: 0 } ,, { left: 0 } @import "too-late.css";')
     return (None, '')
 
 
@@ -132,7 +134,9 @@ def M():
         ('style.cssText=', lambda s: style(s).style, setter('cssText'), [('top: 0; left: (', True), ('top: 0; : x', True), ('top: 0; color: red ! nope', True)]),
         ('style.setProperty', lambda s: style(s).style, lambda t, a: t.setProperty(*a), [(('color', '('), False), (('1x', 'red'), False), (('color', 'red', 'nope'), True), (('color', 'a b !'), True)]),
         ('style[name]=', lambda s: style(s).style, lambda t, a: t.__setitem__(*a), [(('color', ')'), False), (('top', ('1px', 'nope')), True)]),
-        ('property.cssText=', prop, setter('cssText'), [('left: (', True), ('left 1px', True), (': x', False), ('left: 1px ! nope', True), ('left: 1px; top: 0', True)]),
+        ('property.cssText=', prop, setter('cssText'), [('left: (', True), ('left 1px', True), (': x', False), ('left: 1px ! nope', True), ('left: 1px; top: 0', True),
+                                                        # fine, but only valid in a profile outside restricted default profiles: a warning, no refusal
+                                                        ('opacity: 0.25', False), ('src: url(x.woff)', False)]),
         ('property.name=', prop, setter('name'), [('1x', False), ('a b', True), ('', False)]),
         ('property.value=', prop, setter('value'), [('(', False), ('1px (', True), ('a ! b', True)]),
         ('property.priority=', prop, setter('priority'), [('nope', False), ('! nope', True), ('important x', True)]),
@@ -185,7 +189,65 @@ def M():
         ('mediaRule.insertRule(ruleList)', media, lambda t, a: t.insertRule(other_rules(a), 0),
          [('b { top: 0 } @font-face { font-family: x }', True), ('b { top: 0 } @import "x";', True)]),
         ('pageRule.insertRule(ruleList)', page, lambda t, a: t.insertRule(other_rules(a), 0), [('b { top: 0 }', False)]),
+        # rule lists whose later member is refused for another reason than its position
+        ('sheet.insertRule(built ruleList)', lambda s: s, lambda t, a: t.insertRule(built_list(a), built_index(t, a)),
+         [('style+empty-style', True), ('comment+namespace-rebinding-used-prefix', True), ('namespace+its-user+late-import', True),
+          ('variables+empty-style', True), ('style+unset-import', True), ('style+margin', True)]),
+        ('sheet.cssRules.extend(built ruleList)', lambda s: s.cssRules, lambda t, a: t.extend(built_list(a)),
+         [('style+empty-style', True), ('variables+empty-style', True)]),
+        ('mediaRule.insertRule(built ruleList)', media, lambda t, a: t.insertRule(built_list(a), 0), [('style+empty-style', True), ('style+margin', True)]),
+        ('sheet.insertRule(namespace object rebinding a used prefix)', lambda s: s if first(s, R.NAMESPACE_RULE) is not None and first(s, R.NAMESPACE_RULE).prefix else None,
+         lambda t, a: t.insertRule(css.CSSNamespaceRule(namespaceURI=a, prefix=first(t, R.NAMESPACE_RULE).prefix), 99),
+         [('http://other.example', True)]),
+        ('sheet.insertRule(second prefix for a declared URI, then refused)', two_namespaces,
+         lambda t, a: t.insertRule(css.CSSNamespaceRule(namespaceURI='http://b.example', prefix='p'), 1), [(None, True)]),
+        ('importRule.href= (target does not parse, raising mode)', lambda s: first(s, R.IMPORT_RULE), setter('href'), [('broken.css', True)]),
     ]
+
+
+def built_list(kind):
+    "a CSSRuleList made of rule objects"
+    out = css.CSSRuleList()
+    ok = css.CSSStyleRule(selectorText='built', style='top: 0')
+    if kind == 'style+empty-style':
+        list.extend(out, [ok, css.CSSStyleRule()])
+    elif kind == 'comment+namespace-rebinding-used-prefix':
+        list.extend(out, [css.CSSComment('/* built */'), css.CSSNamespaceRule(namespaceURI='http://other.example', prefix='p')])
+    elif kind == 'namespace+its-user+late-import':
+        rules = other_rules('@namespace nn "http://nn.example"; nn|b { top: 0 }')
+        list.extend(out, list(rules) + [css.CSSImportRule(href='late.css')])
+    elif kind == 'variables+empty-style':
+        list.extend(out, list(other_rules('@variables { m: 7px; c: blue }')) + [css.CSSStyleRule()])
+    elif kind == 'style+unset-import':
+        list.extend(out, [ok, css.CSSImportRule()])
+    elif kind == 'style+margin':
+        list.extend(out, [ok, css.MarginRule(margin='@top-left', style='top: 0')])
+    return out
+
+
+def built_index(sheet, kind):
+    if kind in ('comment+namespace-rebinding-used-prefix', 'namespace+its-user+late-import', 'variables+empty-style'):
+        # where @namespace / @variables rules may stand
+        i = 0
+        for i, r in enumerate(sheet.cssRules):
+            if r.type not in (R.CHARSET_RULE, R.IMPORT_RULE, R.COMMENT):
+                break
+        else:
+            i = sheet.cssRules.length
+        return i
+    return sheet.cssRules.length
+
+
+def two_namespaces(sheet):
+    """@namespace z "b"; @namespace p "a"; p|e {}: insertRule(@namespace p "b", 1) re-binds the used prefix p and is refused -
+    the rule for z must not have been cleaned away on the way"""
+    mode = cssutils.log.raiseExceptions
+    cssutils.log.raiseExceptions = False
+    try:
+        sheet.cssText = '@namespace z "http://b.example"; @namespace p "http://a.example"; p|e { top: 0 }'
+    finally:
+        cssutils.log.raiseExceptions = mode
+    return sheet
 
 
 def other_rules(text):
@@ -210,11 +272,14 @@ def table_cases(tier):
         for mi, (name, _, _, args) in enumerate(MUTATORS):
             for ai in range(len(args)):
                 yield {'base': b, 'mutator': mi, 'arg': ai, 'edits': []}
+                if name.startswith(('property.', 'style', 'propertyValue', 'value[')):
+                    yield {'base': b, 'mutator': mi, 'arg': ai, 'edits': [], 'defaults': 'CSS Level 2.1'}
 
 
 table_strategy = st.integers(0, 10 ** 6).flatmap(lambda n: st.fixed_dictionaries({
     'base': st.integers(0, len(BASES) - 1), 'mutator': st.just(n % len(MUTATORS)),
-    'arg': st.integers(0, 7), 'edits': st.lists(st.integers(0, len(EDITS) - 1), min_size=1, max_size=3)}))
+    'arg': st.integers(0, 7), 'edits': st.lists(st.integers(0, len(EDITS) - 1), min_size=1, max_size=3),
+    'defaults': st.sampled_from([None, None, 'CSS Level 2.1', 'CSS Color Module Level 3'])}))
 
 
 def make_sheet(base, edits):
@@ -252,6 +317,11 @@ def check_table(case, ctx):
             return
         before = snapshot(sheet)
         nsobj = sheet.namespaces
+        # restricted default profiles are a documented configuration: they change which profile a value is reported for
+        saved_defaults = cssutils.profile._defaultProfiles
+        if case.get('defaults'):
+            cssutils.profile.defaultProfiles = case['defaults']
+            ctx.event('restricted default profiles')
         try:
             call(target, arg)
         except xml.dom.DOMException as e:
@@ -259,6 +329,10 @@ def check_table(case, ctx):
         except Exception as e:  # noqa: BLE001
             raise Violation('crash:' + name + ':' + frame_sig(e), f'{name}({arg!r}) on base {case["base"]}: {e!r}')
         else:
+            exc = None
+        finally:
+            cssutils.profile._defaultProfiles = saved_defaults
+        if exc is None:
             ctx.event('accepted:' + name)
             ctx.case([case['base'], name, repr(arg), case['edits']], False)
             return
@@ -269,6 +343,7 @@ def check_table(case, ctx):
                             f'{(before[diff] if isinstance(diff, int) else "")!r} -> {(after[diff] if isinstance(diff, int) else "")!r}'[:900])
         # a following valid operation behaves as on an untouched copy
         pristine = make_sheet(case['base'], case['edits'])
+        locate(pristine)  # (a locator may prepare the sheet)
         for k, fu in enumerate(FOLLOWUP):
             ra = rb = None
             try:
